@@ -4,6 +4,8 @@ NOTES = ("Solver-based checking of the real code. Exit codes: 0 holds within the
          "queries and solver time are in each evidence file. Genuine defects repaired in /repo are listed in "
          "known_findings.json under 'fixed'.")
 ENGINES = [
+    {"name": "nia (translation validation)", "path": "harness/C16.py", "serves_properties": ["C16"],
+     "kind_free_text": "SymPy results of the real SymbolicDim/parser code are translated to z3 Real/Int terms and proved equal to a reference semantics for all positive integer bindings"},
     {"name": "symnp+shadow", "path": "engine/symnp.py, engine/shadow.py", "serves_properties": ["C04"],
      "kind_free_text": "the current source of _type_casting/_core/serde is recompiled into shadow modules whose numpy/mmap/open/os globals are shims over z3 bit-vector cells and z3 arrays; the real tensor code then runs on fully symbolic payloads, offsets and file contents"},
     {"name": "hist (on zsym)", "path": "engine/hist.py, engine/irlib.py", "serves_properties": ["C01", "C06", "C11", "C12"],
@@ -13,6 +15,15 @@ ENGINES = [
 ]
 NOT_APPLICABLE = {}
 CHECKS = {
+    "C16": dict(
+        engine="nia (translation validation)", level="translation_validation", design_ref="DESIGN.md section 4 / C16",
+        technique="translation validation in non-linear integer/real arithmetic (z3): library result vs reference semantics for ALL positive integer bindings; parser vs Python's grammar on all token strings up to a length bound",
+        text=("For ~4k expression trees over + - * // / % neg floor ceil trunc min max (ints on either side) the real operator overloads, simplify(), partial evaluate(), str(), the parser and "
+              "serialize_dimension_into are run and their SymPy results proved equal to an independent exact semantics for every binding of the symbols to integers >= 1; every string of <= 5 tokens that "
+              "Python accepts over the documented grammar is parsed and proved to have Python's arithmetic meaning. Counterexample bindings are replayed with exact Fractions."),
+        note=("Trusted: z3; the SymPy->z3 translation (validated at start-up against evaluate()); SymPy's exact rational arithmetic in the replay. Queries z3 cannot decide over all integers "
+              "(nested symbolic-by-symbolic division) are decided for bindings 1..24 and counted separately in the evidence."),
+    ),
     "C11": dict(
         engine="hist (on zsym)", level="other", design_ref="DESIGN.md section 4 / C11",
         technique="symbolic execution (zsym/z3) of bounded interleavings of edits and iterator steps on the real Graph/Function/linked list; rule-based cursor model as oracle; per-path native re-execution",
